@@ -35,7 +35,9 @@ META = {
                   "2-d needles, NaN), isin (invert, dask or NumPy test set), argwhere/nonzero/flatnonzero, count_nonzero (all "
                   "axes), ravel_multi_index / unravel_index, coarsen (sum, max, trim_excess) and compress (every condition up to "
                   "length 5, every axis) - each under ALL chunkings of every input (zero-width chunks on extents <= 3); the "
-                  "TLA+ reference gives shape, content and dtype class of every returned array. Random larger calls are decided "
+                  "TLA+ reference gives shape, content and dtype class of every returned array. Two strata are never sampled "
+                  "out (the specification marks them): searchsorted (side left and right) under every chunking whose border cuts a "
+                  "run of equal values, and digitize over decreasing bins (right False and True). Random larger calls are decided "
                   "by TLC from recorded observations.",
     "level_note": "Trusted: TLC, the TLA+ reference (cross-checked against NumPy on every case; a disagreement is a machinery "
                   "error), the block-assembly projection, NumPy per block. Bounded shapes; quick tier samples (case, chunking) "
@@ -47,7 +49,7 @@ NAN, NONE = 9, 99
 OPS = ["unique", "bincount", "histogram", "histogram2d", "digitize", "searchsorted", "isin", "nonzero", "count_nonzero",
        "ravel_multi_index", "unravel_index", "coarsen", "compress"]
 INVS = ["CellCount", "UniqueOK", "BincountOK", "HistogramOK", "DigitizeOK", "SearchSortedOK", "IsInOK", "NonZeroOK",
-        "CountNonZeroOK", "RavelOK", "UnravelOK", "CoarsenOK", "CompressOK", "ChunkingsValid"]
+        "CountNonZeroOK", "RavelOK", "UnravelOK", "CoarsenOK", "CompressOK", "ChunkingsValid", "StrataOK"]
 
 
 # --------------------------------------------------------------------------- inputs of a case
@@ -343,7 +345,9 @@ def classify(case, clause, run):
     # root causes that do not depend on the chunking come first
     if clause == "Kind":           # the dtype class is decided when the graph is built
         return "%s:Kind:%s" % (op, "weights" if case.get("hasw") else "basic")
-    if op == "unique" and NAN in cells and (case["ri"] or case["rv"] or case["rc"]):
+    zero = any(0 in ax and sum(ax) > 0 for g, ch in enumerate(chunks) if not (g == 1 and np1) for ax in ch)
+    if op == "unique" and NAN in cells and (case["ri"] or case["rv"] or case["rc"]) \
+            and not (zero and len(case["shape"]) > 1 and clause == "UnexpectedRaise"):     # that is the ravel of a zero-width chunk
         return "unique:nan:index-inverse-counts"
     if op == "bincount" and clause in ("Meta", "Shape") and case["minlength"] and cells and max(cells) + 1 > case["minlength"]:
         return "bincount:minlength-below-data:declared-shape"
@@ -351,7 +355,7 @@ def classify(case, clause, run):
         n = int(np.prod(case["shape"])) if case["axis"] == NONE else case["shape"][case["axis"]]
         if len(case["cond"]) > n:
             return "compress:condition-longer-than-axis:%s" % kind
-    if any(0 in ax and sum(ax) > 0 for g, ch in enumerate(chunks) if not (g == 1 and np1) for ax in ch):
+    if zero:
         return "%s:zero-chunk:%s" % (op, kind)
     feats = []
     if any(int(np.prod(s)) == 0 for s in shapes):
@@ -473,12 +477,42 @@ def nontrivial(case, exp):
     return (not exp["err"]) and any(len(o["cells"]) > 0 for o in exp["outs"])
 
 
-def replay_cases(ctx, cases, chunkings, cap):
+def strata(cases, chunkings, full):
+    """The (case, chunking) pairs that are never sampled out; the specification says which (field `must`, RoutinesMC.tla):
+    searchsorted under every chunking with a border inside a run of equal values; digitize over decreasing bins
+    (thorough: under every chunking; quick: under one chunking per case, rotating, several blocks where there are any)."""
+    out, rot = [], 0
+    for ci, c in enumerate(cases):
+        must = c["e"].get("must")
+        if not must or c["e"]["err"]:
+            continue
+        chs = chunkings[tuple(group_shapes(c["c"])[0])]
+        if c["c"]["op"] == "searchsorted":
+            for ch in chs:
+                off, cut = 0, set()
+                for b in ch[0][:-1]:
+                    off += b
+                    cut.add(off)
+                if cut & set(must):
+                    out.append((ci, ch))
+        else:
+            if full:
+                out += [(ci, ch) for ch in chs]
+            else:
+                multi = [ch for ch in chs if len(ch[0]) > 1] or chs
+                out.append((ci, multi[rot % len(multi)]))
+                rot += 1
+    return out
+
+
+def replay_cases(ctx, cases, chunkings, cap, always=()):
     """Every case under every chunking of its first input (the other inputs get a seeded chunking each time); a seeded
-    sample of the (case, chunking) pairs when there are more than `cap`."""
-    pairs = [(ci, ch) for ci, c in enumerate(cases) for ch in chunkings[tuple(group_shapes(c["c"])[0])]]
-    total = len(pairs)
-    sampled = total > cap
+    sample of the (case, chunking) pairs when there are more than `cap` - the pairs of `always` (strata) are run in any case."""
+    keep = {(ci, json.dumps(ch)) for ci, ch in always}
+    pairs = [(ci, ch) for ci, c in enumerate(cases) for ch in chunkings[tuple(group_shapes(c["c"])[0])]
+             if (ci, json.dumps(ch)) not in keep]
+    total = len(pairs) + len(always)
+    sampled = len(pairs) > cap
     if sampled:
         # stratified by operation, so that the operations with few cases are not crowded out by the ones with many
         byop = {}
@@ -490,7 +524,7 @@ def replay_cases(ctx, cases, chunkings, cap):
             pairs += byop[op][:quota]
             rest += byop[op][quota:]
         pairs += ctx.rng.sample(rest, min(len(rest), cap - len(pairs)))
-        pairs.sort(key=lambda p: p[0])
+    pairs = sorted(list(pairs) + list(always), key=lambda p: p[0])
     by = {}
     for ci, ch in pairs:
         by.setdefault(ci, []).append(make_run(cases[ci]["c"], chunkings, ctx.rng, first=ch))
@@ -656,13 +690,17 @@ def run(ctx):
               ["ravel_multi_index", "unravel_index", "coarsen", "compress"], ["histogram"]]
     jobs = [enumerate_cases(ctx, g, fills, coshapes, "+".join(g)) for g in groups]
     parts = in_parallel([functools.partial(read_cases, ctx, j) for j in jobs])
-    cases = [c for p in parts for c in p]
+    # TLC's workers write the state dump in no particular order: sort, so that seeded sampling is reproducible
+    cases = sorted((c for p in parts for c in p), key=lambda c: json.dumps(c["c"], sort_keys=True))
     for c, bad in zip(cases, pmap(_guard, cases, chunk=64)):
         if bad is not None:
             raise MachineryError("TLA+ reference disagrees with NumPy on %r: numpy=%r spec=%r" % (c["c"], bad, c["e"]))
     chunkings = {tuple(c["c"]["shape"]): c["e"]["all"] for c in cases if c["c"]["op"] == "chunkings"}
     cases = [c for c in cases if c["c"]["op"] != "chunkings"]
-    items, total, sampled = replay_cases(ctx, cases, chunkings, ctx.pick(9000, 60000))
+    always = strata(cases, chunkings, not ctx.quick)
+    items, total, sampled = replay_cases(ctx, cases, chunkings, ctx.pick(7500, 50000), always=always)
+    ctx.extra["strata_runs_never_sampled_out"] = {
+        op: sum(1 for ci, _ch in always if cases[ci]["c"]["op"] == op) for op in ("searchsorted", "digitize")}
     for it in items[:3]:
         ctx.sample({"case": it[0], "expected": it[1], "run": it[2][0]})
     recs = []
@@ -773,6 +811,44 @@ def selftest(ctx):
         ("M9 routines._partition (coarsen chunk alignment): remainder chunk dropped  [dropped branch]",
          "_partition", "remainder = (total % divisor,) if total % divisor else ()", "remainder = ()"),
     ]
+    # the strata that are never sampled out, alone, against the two slips they are there for
+    always = [(ci, ch) for ci, ch in strata(cases, chunkings, False) if not any(0 in ax for ax in ch)]
+
+    def strata_replay():
+        rng = random.Random(5)
+        bad, sigs = 0, set()
+        for ci, ch in always:
+            case, exp = cases[ci]["c"], cases[ci]["e"]
+            run = make_run(case, chunkings, rng, first=ch)
+            if any(0 in ax for c2 in run["chunks"] for ax in c2):
+                continue
+            cl = judge(exp, run_dask(case, run))
+            if cl:
+                bad += 1
+                sigs.add(classify(case, cl, run))
+        return bad, sigs
+    n0, sg = strata_replay()
+    print("selftest C27: unmutated dask on the strata (%d runs): %d violations %s -> %s" % (len(always), n0, sorted(sg), "ok" if n0 == 0 else "FAILED"))
+    ok &= n0 == 0
+    for title, fn, old, new in [
+        ("S1 routines._searchsorted_block: 'earlier block' marker where the local result is 0 -> where y < x[0]  "
+         "[a run of equal values across a chunk border, side='left']",
+         "_searchsorted_block", "res[res == 0] = -1", "res[(y < x[0]) if x.size else (y == y)] = -1"),
+        ("S2 routines.digitize: per-block np.digitize -> np.searchsorted(bins, x)  [decreasing bins]",
+         "digitize", "a.map_blocks(np.digitize, dtype=dtype, bins=bins, right=right)",
+         "a.map_blocks(lambda x, bins, right: np.searchsorted(bins, x, side='left' if right else 'right'), dtype=dtype, "
+         "bins=bins, right=right)")]:
+        with mutant(routines, fn, old, new) as f:
+            saved = getattr(da, fn, None)
+            if saved is not None:
+                setattr(da, fn, f)
+            try:
+                n, sg = strata_replay()
+            finally:
+                if saved is not None:
+                    setattr(da, fn, saved)
+        print("selftest C27: mutant %s, strata only: %d violations %s -> %s" % (title, n, sorted(sg)[:3], "DETECTED" if n > 0 else "MISSED"))
+        ok &= n > 0
     for title, fn, old, new in mutants:
         with mutant(routines, fn, old, new) as f:
             saved = getattr(da, fn, None)
